@@ -1330,3 +1330,26 @@ T('lock-acquire-timed-by-a-transparent-decorator', ['C02', 'C12'],
 T('cache-decorator-traced-by-a-factory', ['C01', 'C14'],
   (A, "E = TypeVar('E', bound=BaseException)\n", "def _traced(label: str) -> Any:\n    def _deco(func: Any) -> Any:\n        @wraps(func)\n        def _w(*args: Any, **kwargs: Any) -> Any:\n            logger.debug('%s called', label)\n            return func(*args, **kwargs)\n        return _w\n    return _deco\n\n\nE = TypeVar('E', bound=BaseException)\n"),
   (A, "def threadsafe_async_cache(\n    func: Optional[_AsyncFunc] = None,\n", "@_traced('cache')\ndef threadsafe_async_cache(\n    func: Optional[_AsyncFunc] = None,\n"))
+
+# --- rules from seeded wave 11 (indirect, second round) -------------------------------------------------
+B('cache-table-prunes-on-insert', ['C01'], ['C01-R1'],
+  (A, "    events: Dict[Tuple[Any, ...], Tuple[aio.AbstractEventLoop, aio.Event]] = {}\n", "    events: Dict[Tuple[Any, ...], Tuple[aio.AbstractEventLoop, aio.Event]] = _Table()\n"),
+  (A, "E = TypeVar('E', bound=BaseException)\n", "class _Table(dict):  # type: ignore\n    def __setitem__(self, k: Any, v: Any) -> None:\n        for old in [q for q, (lp, _) in self.items() if lp.is_closed()]:\n            self.pop(old, None)\n        super().__setitem__(k, v)\n\n\nE = TypeVar('E', bound=BaseException)\n"))
+B('cache-table-from-a-module-registry', ['C01'], ['C01-R1'],
+  (A, "    events: Dict[Tuple[Any, ...], Tuple[aio.AbstractEventLoop, aio.Event]] = {}\n", "    events: Dict[Tuple[Any, ...], Tuple[aio.AbstractEventLoop, aio.Event]] = _IN_FLIGHT.setdefault(getattr(func, '__qualname__', ''), {})\n"),
+  (A, "E = TypeVar('E', bound=BaseException)\n", "_IN_FLIGHT: Dict[str, Any] = {}\n\nE = TypeVar('E', bound=BaseException)\n"))
+B('cache-func-behind-a-weak-trampoline', ['C14'], ['C14-R3'],
+  (A, "    _func: _AsyncFunc = func\n    del cache, func\n", "    _func: _AsyncFunc = func\n    if hasattr(func, '__self__'):\n        import weakref\n        method = weakref.WeakMethod(func)\n\n        def _func(*args: Any, **kwargs: Any) -> Any:  # type: ignore\n            return method()(*args, **kwargs)\n    del cache, func\n"))
+B('buf-daemon-held-weakly', ['C08'], ['C08-D1'],
+  (A, "        self._waiting = DaemonTask(\n            self._waiter(),\n            loop=self.loop,\n            name=f\"Buffering {self.func!r}\",\n        )\n",
+      "        import weakref\n        self._waiting = weakref.ref(DaemonTask(\n            self._waiter(),\n            loop=self.loop,\n            name=f\"Buffering {self.func!r}\",\n        ))\n"))
+B('buf-wait-resets-the-timer-attribute', ['C07'], ['C07-W4'],
+  (A, "        await self.event.wait()\n\n    async def wait_from_anywhere", "        await self.event.wait()\n        self._getting = None\n\n    async def wait_from_anywhere"))
+B('bat-batch-sorted-in-place', ['C10'], ['C10-R4'],
+  (A, "                break\n        return tasks\n", "                break\n        tasks.sort()\n        return tasks\n"))
+B('bat-flush-overwrites-an-option', ['C10'], ['C10-R5'],
+  (A, "    async def _processing_loop(self) -> None:\n", "    async def flush(self) -> None:\n        saved, self.batch_timeout = self.batch_timeout, 0\n        try:\n            await aio.sleep(0)\n        finally:\n            self.batch_timeout = saved\n\n    async def _processing_loop(self) -> None:\n"))
+B('bat-dispatcher-cancels-a-batch', ['C09'], ['C09-R7'],
+  (A, "    async def _processing_loop(self) -> None:\n", "    def _abandon(self, task: Any) -> None:\n        task.cancel()\n\n    async def _processing_loop(self) -> None:\n"))
+B('bat-dispatcher-evicts-by-key', ['C09'], ['C09-R7'],
+  (A, "    async def _processing_loop(self) -> None:\n", "    def _forget(self, key: str) -> None:\n        self._retention_cache.pop(key, None)\n\n    async def _processing_loop(self) -> None:\n"))
